@@ -31,7 +31,9 @@ func VerifC07Fields() {
 	_, serverPub := vServerKeys()
 	staticPv := new([32]byte)
 	copy(staticPv[:], vapi.Bytes("staticPv", 32)) // same draw names: same symbolic key
-	S := vSetClock("now")
+	// the clock is concrete here: the window arithmetic is VerifC07Window's subject
+	vNowSec, vNowNsec = 1700000000, 5
+	S := vNowSec
 	uid := vapi.Bytes("uid", 16)
 	mlen := 1 + vapi.Pick("mlen", 12)
 	method := vapi.Bytes("method", mlen)
@@ -41,9 +43,7 @@ func VerifC07Fields() {
 	enc := vapi.U8("enc")
 	sid := vapi.U32("sid")
 	un := vapi.Bool("unordered")
-	ts := vapi.I64("ts")
-	vapi.Assume(ts > S-180)
-	vapi.Assume(ts < S+180)
+	ts := S - 100
 	c := vNewClient(serverPub, vPlaintext(uid, method, enc, ts, sid, un))
 	var frag authFragments
 	frag.randPubKey = c.ephPub
